@@ -22,7 +22,7 @@ ASSUMPTIONS = [
     "no pending asyncio task, host process exits 0 without child processes",
 ]
 MUST_REACH = ["count_treat", "end_counts", "runner_exactly_once",
-              "restart_cstep_per_move", "e2e_counts"]
+              "restart_cstep_per_move", "e2e_counts", "moves_recorded_once"]
 JOB_TIMEOUT = 1500
 
 
@@ -45,11 +45,21 @@ def _grid(tier, seed):
         if r < 0.6 and steps - 1 >= w:
             k = rng.randint(w, steps - 1)
             more = rng.randint(steps, steps + 12)
-            if rng.random() < 0.5:
+            r2 = rng.random()
+            if r2 < 0.4:
                 spec["segments"] = [{"steps": k}, {"steps": steps}]
-            else:
+            elif r2 < 0.8:
                 spec["segments"] = [{"steps": steps, "kill_after": k},
                                     {"steps": steps}]
+            else:
+                # the main process dies INSIDE a step: right after the data
+                # row(s) of an accepted move were appended, or right after
+                # the restart file was rewritten
+                spec["segments"] = [
+                    {"steps": steps, "kill_in": [rng.choice(
+                        ["after_write_to_pathens", "after_write_toml"]),
+                        rng.randint(1, max(1, k))]},
+                    {"steps": steps}]
             if rng.random() < 0.4:
                 spec["segments"].append({"steps": more})
         elif r < 0.75:
@@ -143,6 +153,35 @@ def _mons(spec, cdir):
                         f"segment {i}: {rec['submitted']} jobs submitted, "
                         f"{rec['treated']} results consumed")
                 rig.ev("finished_segments")
+                # "completed and recorded - never more, never fewer": every
+                # replaced path has exactly one data row, no live path has one
+                try:
+                    from vf.rig_sched import parse_data_file
+                    df = cfg["output"]["data_file"]
+                    df = df if os.path.isabs(df) else os.path.join(rig.cdir,
+                                                                   df)
+                    cnt = {}
+                    for r in parse_data_file(df):
+                        cnt[r["pn"]] = cnt.get(r["pn"], 0) + 1
+                    rig.reach("moves_recorded_once")
+                    active = set(cur["active"])
+                    twice = sorted(p for p, c in cnt.items() if c > 1)
+                    lost = sorted(p for p in range(cur["traj_num"])
+                                  if p not in active and p not in cnt)
+                    live = sorted(p for p in cnt if p in active)
+                    if twice:
+                        rig.violate("move-recorded-twice", f"paths {twice} "
+                                    "have more than one data row")
+                    if lost:
+                        rig.violate("move-not-recorded", f"replaced paths "
+                                    f"{lost} have no data row")
+                    if live:
+                        rig.violate("live-path-recorded", f"active paths "
+                                    f"{live} have a data row")
+                except OSError:
+                    pass
+            elif out == "killed" and "kill_in" in seg:
+                rig.ev("killed_inside_step_segments")
             elif out == "killed":
                 k = seg["kill_after"]
                 if cur["cstep"] != rec["start_cstep"] + k:
@@ -160,7 +199,11 @@ def _mons(spec, cdir):
                 for line in f:
                     if "]: shooted " in line:
                         n_sh += 1
-            if spec.get("screen", 1) == 1 and n_sh != self.treated:
+            inside = any("kill_in" in sg for sg in segs)
+            # (a move cut short inside treat_output is logged, and possibly
+            # redone after the restart: the log is no step counter then)
+            if spec.get("screen", 1) == 1 and n_sh != self.treated and \
+                    not inside:
                 rig.violate("log-records", f"{n_sh} 'shooted' records in "
                             f"sim.log, {self.treated} moves completed")
     return [M()]
